@@ -96,6 +96,15 @@ type CCase struct {
 	// (measurement -> files, measurement -> memtable, ...): 0 = ascending keys, else a
 	// rotation/reversal of it (see verifyield.SetMapOrder)
 	MapOrder uint64 `json:"map_order,omitempty"`
+	// crash plan (property C01; absent in older replay files = no crash images): at every CrashEvery-th
+	// scheduler step the journal of the live disk is cut, the image recovered and judged (c_crash.go);
+	// CrashTorn: also the variant where one parked write lands as a prefix.  OnlyCrashStep/OnlyCrashVar pin
+	// a minimised replay to the step (of the recorded schedule) and variant (0 plain, 1 torn) of its violation.
+	CrashEvery    int  `json:"crash_every,omitempty"`
+	CrashTorn     bool `json:"crash_torn,omitempty"`
+	OnlyCrashStep int  `json:"only_crash_step,omitempty"`
+	OnlyCrashVar  int  `json:"only_crash_var,omitempty"`
+	OnlyCrashCut  int  `json:"only_crash_cut,omitempty"` // pinned torn variant: bytes of the parked write that landed
 }
 
 type worldC struct{}
@@ -114,6 +123,23 @@ func (worldC) Components() ([]string, []string) {
 
 func (w worldC) Gen(r *core.Rand, env *core.Env) CCase {
 	var c CCase
+	if env.Property == "C01" {
+		// crash images at scheduler steps: own shapes, own draws (these cases did not exist before)
+		c = w.genCrash(r, env)
+		cwDrawLockKnobs(r, &c)
+		if r.Intn(4) != 0 {
+			// the crash states are determined by file-system calls and acknowledgements: lock-level
+			// yield points (which use up the step bound) in a quarter of the cases only
+			c.LockNth, c.LockSites, c.LockCls = 0, nil, ""
+		}
+		if r.Bool(0.5) {
+			cwWalWarmN(r, &c, 4) // 8-10 (write, flush) pairs: the log file sequence has passed 9
+		} else {
+			cwWalWarmTo(r, &c, 4) // ... is about to pass 9 in the concurrent phase
+		}
+		cwDrawCrashPlan(r, &c)
+		return c
+	}
 	if r.Intn(5) == 0 {
 		c = w.genReload(r, env)
 	} else {
@@ -128,8 +154,10 @@ func (w worldC) Gen(r *core.Rand, env *core.Env) CCase {
 // write-ahead-log file sequence has passed 9 when the concurrent phase starts: file names are <seq>.wal without
 // padding, and a write racing with a flush leaves two log files (9.wal, 10.wal) that a restart has to replay in
 // numeric order (seeded change C01-d ordered them as strings).
-func cwWalWarm(r *core.Rand, c *CCase) {
-	if r.Intn(8) != 0 {
+func cwWalWarm(r *core.Rand, c *CCase) { cwWalWarmN(r, c, 8) }
+
+func cwWalWarmN(r *core.Rand, c *CCase, oneIn int) {
+	if r.Intn(oneIn) != 0 {
 		return
 	}
 	n := r.Range(8, 10)
@@ -550,7 +578,7 @@ var (
 
 func cwCaseKey(c CCase) string {
 	var parts []string
-	parts = append(parts, fmt.Sprintf("%+v|%d|%d|%d|%v|%d|%s|%d|%d", c.Knobs, c.NMst, c.NSeries, c.SchedSeed, c.PCT, c.PCTDepth, c.ReadGate, c.ReadNth, c.MaxSteps) + fmt.Sprint(c.LazyFiles, c.Repeat, c.NoGate) + fmt.Sprint("|", c.LockNth, c.LockSites, c.LockCls, c.MapOrder))
+	parts = append(parts, fmt.Sprintf("%+v|%d|%d|%d|%v|%d|%s|%d|%d", c.Knobs, c.NMst, c.NSeries, c.SchedSeed, c.PCT, c.PCTDepth, c.ReadGate, c.ReadNth, c.MaxSteps) + fmt.Sprint(c.LazyFiles, c.Repeat, c.NoGate) + fmt.Sprint("|", c.LockNth, c.LockSites, c.LockCls, c.MapOrder)+cwCrashKey(c))
 	for _, op := range c.Ops {
 		parts = append(parts, cwOpDigest(op))
 	}
@@ -647,6 +675,11 @@ func (worldC) Simplify(c CCase) []CCase {
 				add(n)
 			}
 		}
+	}
+	if c.CrashTorn {
+		n := cwClone(c)
+		n.CrashTorn = false
+		add(n)
 	}
 	if c.Knobs.Partitions > 1 {
 		n := cwClone(c)
